@@ -286,10 +286,10 @@ class DataHeader(BitsInterface, BytesInterface):
                 fragment_sequence_number=ba2int(bits[76:80]),
             )
         elif dpf == DataPacketFormats.ResponsePacket:
+            # first four bits of C_RHEAD are reserved (as_bits writes 0000), there is no A bit to read
             return DataHeader(
                 dpf=dpf,
                 crc=bits[80:96],
-                is_response_requested=bits[1],
                 sap_identifier=SAPIdentifier.from_bits(bits[8:12]),
                 llid_destination=ba2int(bits[16:40]),
                 llid_source=ba2int(bits[40:64]),
